@@ -51,8 +51,15 @@ XT2 == Scope("x2", "X", << Obj("X", "x2X", <<Marker("x2X")>>) >>)
 \* a table of struct-mapped objects whose IDs collide with the IDs of the "smap" trees; both declare a default
 XT3 == Scope("x3", "Settings", << SObj("Settings", "x3S", "Leaf", <<PropD("mode", Leaf, "fast"), Prop("tag", FALSE, Leaf)>>),
                                   SObj("Engine", "x3E", "Leaf", <<PropD("mode", Leaf, "slow"), Prop("tag", FALSE, Leaf)>>) >>)
+\* a table whose scope itself waits for a namespace: tree -> (nsa) x4X -> (nsb) X of whichever table x4 is
+\* given - T2, or its own table T4 (a cycle across namespaces: x4X.c -> x4X)
+XT4 == Scope("x4", "X", << Obj("X", "x4X", <<Marker("x4X"), Prop("c", FALSE, Ref("e4", "nsb", "X"))>>),
+                           Obj("B", "x4B", <<Marker("x4B"), Prop("d", FALSE, ListOf(Ref("e5", "nsb", "X")))>>) >>)
 ExtMC == [T1 |-> XT1, T2 |-> XT2, T3 |-> XT3]
+ExtChain == [T1 |-> XT1, T2 |-> XT2, T4 |-> XT4]
+ExtFor(shape) == IF shape = "chain" THEN ExtChain ELSE ExtMC
 Canon == [nsa |-> "T1", nsb |-> "T2", nsc |-> "T3"]
+CanonFor(shape) == IF shape = "chain" THEN [nsa |-> "T4", nsb |-> "T2", nsc |-> "T3"] ELSE Canon
 ExtTargets == {<<"nsa", "X">>, <<"nsa", "B">>, <<"nsb", "X">>}
 
 \* ------------------------------------------------------------------ trees
@@ -99,8 +106,20 @@ SMap(P) ==
                 settings("aS"),
                 SObj("Engine", "aE", "Leaf", <<PropD("mode", Leaf, "local"), Prop("tag", FALSE, Leaf)>>) >>)
 
+\* a declared default on a reference-typed property whose value reaches, through the referenced object B, into
+\* a member of B that refers to ANOTHER namespace: A{b: ref B = <default>}, B{p1: <wrapper>(ref ns:X)}
+DefText(w) == CASE w = "direct" -> "{\"p1\":{}}"
+                [] w = "list"   -> "{\"p1\":[{}]}"
+                [] w = "map"    -> "{\"p1\":{\"ka\":{}}}"
+DefR(P) ==
+    Scope("top", "A",
+          << Obj("A", "aA", <<Marker("aA"), PropD("b", Ref("rb", "", "B"), DefText(P[1].w)), Prop("n", FALSE, Leaf)>>),
+             Obj("B", "aB", <<Marker("aB"), Prop("p1", FALSE, Wrapped(P[1].w, 1, P[1].ns, P[1].id))>>) >>)
+
 TreeOf(shape, P) ==
     CASE shape = "smap"   -> SMap(P)
+      [] shape = "defr"   -> DefR(P)
+      [] shape = "chain"  -> Top(P, <<>>, <<>>, <<>>)
       [] shape = "flat"   -> Top(P, <<>>, <<>>, <<>>)
       [] shape = "nest1"  -> Top(P, <<Prop("s1", FALSE, S1(P, <<>>))>>, <<>>, <<>>)
       [] shape = "nest1l" -> Top(P, <<Prop("s1", FALSE, ListOf(S1(P, <<>>)))>>, <<>>, <<>>)
@@ -134,6 +153,11 @@ IDsOf(sc, shape) ==
       [] sc = "s2"  -> {"A", "C"}
 Targets(sc, shape) == {<<"", id>> : id \in IDsOf(sc, shape)} \cup ExtTargets
 Places(shape, W, Q, DW) ==
+    IF shape \in {"defr", "chain"}
+    THEN {[hs |-> "top", ho |-> h, w |-> w, ns |-> tg[1], id |-> tg[2], req |-> FALSE, dis |-> ""] :
+             h \in (IF shape = "defr" THEN {"B"} ELSE {"A", "B"}), w \in {"direct", "list", "map"},
+             tg \in (IF shape = "defr" THEN {<<"nsa", "X">>, <<"nsb", "X">>} ELSE {<<"nsa", "X">>, <<"nsa", "B">>})}
+    ELSE
     IF shape = "smap"
     THEN {[hs |-> "top", ho |-> "Settings", w |-> w, ns |-> tg[1], id |-> tg[2], req |-> FALSE, dis |-> ""] :
              w \in {"direct", "inobj"}, tg \in {<<"", "Engine">>, <<"nsc", "Settings">>, <<"nsc", "Engine">>}}
@@ -153,7 +177,7 @@ Init ==
     \E shape \in Shapes : \E p1 \in Places(shape, Wrap1, Reqs, DisWraps) :
     \E p2 \in (IF shape \in PairShapes THEN Places(shape, Wrap2, {FALSE}, {}) ELSE {}) \cup {NoPlace} :
         /\ params = [shape |-> shape, P |-> <<p1, p2>>]
-        /\ InitState(TreeOf(shape, <<p1, p2>>), ExtMC, AppliedNs(<<p1, p2>>))
+        /\ InitState(TreeOf(shape, <<p1, p2>>), ExtFor(shape), AppliedNs(<<p1, p2>>))
 
 Next == /\ \E a \in Acts : Do(a)
         /\ UNCHANGED params
@@ -163,12 +187,12 @@ HistBound == Len(hist) <= 40
 
 \* ------------------------------------------------------------------ model properties
 WellFormedInv == hist = <<>> => WellFormed(tree, ext)
-Canonical == Uniform /\ \A n \in Namespaces : NsTab[n] = Canon[n]
+Canonical == Uniform /\ \A n \in Namespaces : NsTab[n] = CanonFor(params.shape)[n]
 InlineSame == (Canonical /\ MapBased) => (InlineSameAt(InlineK, RawD) /\ ShorthandLaw)
 Untouched == OtherNamespacesUntouched
 
 \* ------------------------------------------------------------------ export
-VRs(lk) == [g \in ix.tscopes |-> VR(ScopeByTag(g), lk)]
+VRs(lk) == [g \in ix.tscopes \cup ix.escopes |-> VR(ScopeByTag(g), lk)]
 Diff(l1, l2) == [g \in {x \in DOMAIN l1 : l1[x] # l2[x]} |-> l2[g]]
 NextOf == {[act |-> a, diff |-> Diff(link, LinkAfter(link, a)), vr |-> VRs(LinkAfter(link, a))] :
               a \in {x \in Acts : CanDo(x, built)}}
